@@ -36,6 +36,7 @@ def main(argv=None):
     wl = importlib.import_module("vmon.workloads." + a.prop.lower())
     from . import known
     ctx.classifier = known.classifier_for(a.prop)
+    monitor._engine()
     wl.install(ctx)
 
     t0 = time.time()
